@@ -26,6 +26,9 @@ type Case struct {
 	InPlace   bool     `json:"in_place"`
 	Par       int      `json:"parallelism"`
 	Transform string   `json:"transform"` // "<space>.Linearise", "<space>.Encode", "custom"
+	// Canvas: source and destination are two disjoint sub-images of ONE parent image (Src.Parent, of type
+	// Src.Type): tile-to-tile work on a shared canvas.  Src.Rect and Dst.Rect lie inside Src.Parent.
+	Canvas bool `json:"canvas,omitempty"`
 }
 
 func custom(c color.Color) color.RGBA64 {
@@ -57,8 +60,45 @@ func resolve(name string) (apply func(draw.Image, image.Image, int), perColour f
 	panic("unknown transform " + name)
 }
 
+func checkCanvas(c Case) (kind, what string, classes []string) {
+	apply, f := resolve(c.Transform)
+	ps := c.Src
+	ps.Rect, ps.Wrap = ps.Parent, false
+	canvas, model, srcCopy := img.Build(ps), img.Build(ps), img.Build(ps)
+	type subber interface {
+		SubImage(image.Rectangle) image.Image
+	}
+	sub := func(b img.Built, r [4]int) image.Image {
+		return b.Img.(subber).SubImage(image.Rect(r[0], r[1], r[2], r[3]))
+	}
+	srcImg, dstImg := sub(canvas, c.Src.Rect), sub(canvas, c.Dst.Rect).(draw.Image)
+	if pn, msg := ev.Guard(func() { apply(dstImg, srcImg, c.Par) }); pn {
+		return "panic", msg, nil
+	}
+	msrc, mdst := sub(srcCopy, c.Src.Rect), sub(model, c.Dst.Rect).(draw.Image)
+	sb, db := msrc.Bounds(), mdst.Bounds()
+	for y := sb.Min.Y; y < sb.Max.Y; y++ {
+		for x := sb.Min.X; x < sb.Max.X; x++ {
+			mdst.Set(db.Min.X+(x-sb.Min.X), db.Min.Y+(y-sb.Min.Y), f(msrc.At(x, y)))
+		}
+	}
+	got, want := canvas.Snapshot(), model.Snapshot()
+	for i := range got {
+		for k := range got[i] {
+			if got[i][k] != want[i][k] {
+				return "pixel", fmt.Sprintf("%s: source %v and destination %v are disjoint sub-images of one %s canvas %v, parallelism %d: canvas buffer byte %d = %#x, model %#x",
+					c.Transform, c.Src.Rect, c.Dst.Rect, c.Src.Type, c.Src.Parent, c.Par, k, got[i][k], want[i][k]), []string{"shared-canvas", "sub-image"}
+			}
+		}
+	}
+	return "", "", []string{"shared-canvas", "sub-image"}
+}
+
 func check(c Case) (kind, what string, classes []string) {
 	ev.Journal("transform", c)
+	if c.Canvas {
+		return checkCanvas(c)
+	}
 	apply, f := resolve(c.Transform)
 	var src, dst, srcCopy, model img.Built
 	if c.InPlace {
@@ -188,7 +228,7 @@ func TestC10(t *testing.T) {
 		fmt.Println("REPLAY case passed")
 		return
 	}
-	ev.Rule("rapid: source of every standard image type (incl. opaque wrapper, sub-images, negative origins, empty/1xN/Nx1, a quarter with 10..40 rows), destination of every standard draw.Image type (RGBA64, RGBA, NRGBA, NRGBA64, Gray, Gray16, Alpha, Alpha16, CMYK, Paletted) or an opaque wrapper with its own origin, size = source + (0..3, 0..3), optionally a sub-image of a sentinel-filled parent; parallelism in {1,2,3,7,16,rows+5}; transform in {Linearise,Encode} x 4 spaces + TransformImageColor with an injective channel-rotating function; in-place for the draw.Image types. Also a fixed cross product of source types x destination types x parallelism x transforms on awkward geometry, and banners (1-3 rows of 129..20000 pixels, widths around powers of two, sub-image destinations, in-place; a tenth of the rapid images and a sweep over every type pair). Oracle: Set()-based model on a clone, whole parent buffers compared byte for byte. non-trivial = distinct case with differing origins, a sub-image, parallelism>1 with >=2 rows, a concrete fast path, or in-place")
+	ev.Rule("rapid: source of every standard image type (incl. opaque wrapper, sub-images, negative origins, empty/1xN/Nx1, a quarter with 10..40 rows), destination of every standard draw.Image type (RGBA64, RGBA, NRGBA, NRGBA64, Gray, Gray16, Alpha, Alpha16, CMYK, Paletted) or an opaque wrapper with its own origin, size = source + (0..3, 0..3), optionally a sub-image of a sentinel-filled parent; parallelism in {1,2,3,7,16,rows+5}; transform in {Linearise,Encode} x 4 spaces + TransformImageColor with an injective channel-rotating function; in-place for the draw.Image types; an eighth of the cases use two disjoint sub-images of one canvas as source and destination. Also a fixed cross product of source types x destination types x parallelism x transforms on awkward geometry, and banners (1-3 rows of 129..20000 pixels, widths around powers of two, sub-image destinations, in-place; a tenth of the rapid images and a sweep over every type pair). Oracle: Set()-based model on a clone, whole parent buffers compared byte for byte. non-trivial = distinct case with differing origins, a sub-image, parallelism>1 with >=2 rows, a concrete fast path, or in-place")
 	ev.Assume("the per-colour functions themselves are checked by C01/C02/C14; destination at least as large as the source (the documented precondition)")
 	// fixed cross product
 	n := 0
@@ -290,6 +330,32 @@ func TestC10(t *testing.T) {
 		} else {
 			c.Src = img.Gen(rt, "src", img.GenOpts{AllowWrap: true, TallRows: 40, Orbit: true, Wide: 6000})
 			c.Dst = genDst(rt, c.Src)
+		}
+		if rapid.IntRange(0, 7).Draw(rt, "canvas") == 0 {
+			// two disjoint tiles of one canvas: side by side, one above the other, or diagonal
+			w, h := rapid.IntRange(1, 9).Draw(rt, "tilew"), rapid.IntRange(1, 12).Draw(rt, "tileh")
+			gx, gy := rapid.IntRange(0, 2).Draw(rt, "gapx"), rapid.IntRange(0, 2).Draw(rt, "gapy")
+			x0, y0 := rapid.IntRange(-4, 4).Draw(rt, "cx0"), rapid.IntRange(-4, 4).Draw(rt, "cy0")
+			m := rapid.IntRange(0, 2).Draw(rt, "margin")
+			c = Case{Canvas: true}
+			c.Src = img.Spec{Type: rapid.SampledFrom(allDstTypes).Draw(rt, "canvastype"), PalN: 16, Fill: "prng", Seed: rapid.Uint64().Draw(rt, "cseed")}
+			a := [4]int{x0, y0, x0 + w, y0 + h}
+			var b [4]int
+			switch rapid.IntRange(0, 2).Draw(rt, "arrangement") {
+			case 0:
+				b = [4]int{x0 + w + gx, y0, x0 + 2*w + gx, y0 + h}
+			case 1:
+				b = [4]int{x0, y0 + h + gy, x0 + w, y0 + 2*h + gy}
+			default:
+				b = [4]int{x0 + w + gx, y0 + h + gy, x0 + 2*w + gx, y0 + 2*h + gy}
+			}
+			c.Src.Parent = [4]int{x0 - m, y0 - m, b[2] + m, b[3] + m}
+			if rapid.Bool().Draw(rt, "swaptiles") {
+				a, b = b, a
+			}
+			c.Src.Rect = a
+			c.Dst = c.Src
+			c.Dst.Rect = b
 		}
 		rows := c.Src.Rect[3] - c.Src.Rect[1]
 		c.Par = rapid.SampledFrom(parChoices(rows)).Draw(rt, "parallelism")
